@@ -99,6 +99,13 @@ CLAIMED = {
          "Notifier.tla (as coded) is model-checked for all report/tick sequences of 3 sessions, interval 3, 8 ticks.",
          "One association (the code documents multi-association routing as unimplemented); BESS notify socket only so far (UP4 digests pending); time stamps are the harness' clock with 0.5x / 1.5x margins. " + TRUST,
          "5 C13"),
+ "C20": ("TLA+ R-spec RouteControl (kernel routes / resolved next hops -> required module graph) + TraceC20: TLC judges the module graph after every event of bounded-exhaustive kernel histories replayed into the real Python handlers",
+         "conf/route_control.py is loaded from /repo under stand-ins for pyroute2, pybess and scapy (the real BessController wrapper runs on a recording BESS class with bessd's EEXIST / ENOENT / EBUSY semantics). "
+         "Every kernel-consistent history of RTM_NEWROUTE / RTM_DELROUTE / RTM_NEWNEIGH over 4 routes, 3 next hops and 2 managed interfaces up to depth 5 (quick) / 7 (thorough, 2.4 M events) and seeded longer histories "
+         "are replayed into the real _netlink_route_handler / _netlink_neighbor_handler; after every event TLC checks InstalledIffKernelHasItAndResolved, OneGateOneModulePerNextHop, RewriteModuleExistsIffUsed and "
+         "LiveNextHopsNeverShareAGate on the recorded module graph; a handler that raises is an event nothing consumes.",
+         "Neighbour entries resolve once per history (no MAC change, no neighbour expiry); the ping thread and signal handlers are not exercised. " + TRUST,
+         "5 C20"),
 }
 
 def hooks_commits():
